@@ -274,10 +274,11 @@ type IG struct {
 	succ   [][]int
 	first  map[*ssa.BasicBlock]int
 	// cache for the value-sensitive search (ssax_vs.go)
-	relevant  map[ssa.Value]bool
-	valIDs    map[ssa.Value]int
-	liveCache map[*ssa.BasicBlock]map[ssa.Value]bool
-	liveKey   int
+	relevant    map[ssa.Value]bool
+	valIDs      map[ssa.Value]int
+	liveCache   map[*ssa.BasicBlock]map[ssa.Value]bool
+	liveKey     int
+	recordEdges map[[2]*ssa.BasicBlock]bool
 }
 
 func buildIG(fn *ssa.Function) *IG {
